@@ -261,6 +261,25 @@ def finding_matcher(f, case):
 
 # --------------------------------------------------------------------------- generators
 INT_POOL = [-3, -1, 0, 1, 2, 3, 5, 8, 12]
+# names of signature parameters: p1..p6 and names spelled like variables of the implementation (w_validate.SPECIAL_NAMES:
+# 10 args, 11 kwargs, 12 cls, 13 result, 14 func, 15 parameters, 16 k, 17 value, 18 signature); 0 = self, 7..9 = names outside
+NAME_POOL = [1, 2, 3, 4, 5, 6, 10, 10, 11, 12, 13, 14, 15, 16, 17, 18]
+
+
+def pick_names(rng, n):
+    names = rng.sample(sorted(set(NAME_POOL)), n)
+    if rng.random() < 0.3 and 10 not in names:          # `args` without star, at a random position
+        names[rng.randrange(n)] = 10
+    return names
+
+
+def maybe_equalise(rng, asg):
+    """repeated equal positional / keyword values (value-based bookkeeping must not confuse them)"""
+    if len(asg) >= 2 and rng.random() < 0.15:
+        v = [1, rng.choice([0, 2, 7]), 0]
+        for n in asg:
+            asg[n] = list(v)
+    return asg
 FOREIGN = [[0, 1], [0, 20], [0, 13], [0, 13, 2], [1], [0, 2]]
 REJECT_LIKE = [[0, 13, 0], [0, 13, 0, 1]]
 
@@ -321,7 +340,7 @@ def boundary_chain(rng, maxlen):
 
 
 def gen_sig(rng, n, method, kwonly_p=0.3, varkw_p=0.08):
-    names = rng.sample(range(1, 7), n)
+    names = pick_names(rng, n)
     n_kw = min(n, rng.choice([1, 1, 2])) if rng.random() < kwonly_p else 0
     n_pos = n - n_kw
     n_def = rng.choice([0, 0, 1, 2, n_pos]) if n_pos else 0
@@ -432,7 +451,7 @@ def gen_random_case(rng, maxchain, maxn=4, tag='valid'):
         asg = gen_assignment(rng, sig, params)
         asg[p['n']] = v
     else:
-        asg = gen_assignment(rng, sig, params)
+        asg = maybe_equalise(rng, gen_assignment(rng, sig, params))
     j = rng.randint(0, max_prefix(sig, asg))
     rest = [n for n in asg if n not in [sp['n'] for sp in named(sig)][:j]]
     rng.shuffle(rest)
@@ -520,6 +539,7 @@ def gen_matrix(rng, maxchain, n, cap_styles, modes=(0, 1, 2), flask=False):
         for n in asg:
             if rng.random() < 0.85:
                 asg[n] = rng.choice([[1, rng.choice([0, 2, 3, 8]), 0], [1, rng.choice([0, 2, 4]), 0], [3, rng.choice([0, 2, 8]), 0]])
+    maybe_equalise(rng, asg)
     ignore = rng.random() < 0.06
     out = []
     gid = rng.getrandbits(48)
@@ -569,7 +589,7 @@ def gen_shared(rng, maxchain):
     """The SAME Parameter objects decorate two or three functions with different signature defaults (modes, strictness,
     declaration orders); the functions are called one after the other, omitting / passing arguments, external values
     present / absent.  History independence: every call is judged like a single call of a freshly decorated function."""
-    names = rng.sample(range(1, 7), rng.choice([1, 2, 2, 3]))
+    names = pick_names(rng, rng.choice([1, 2, 2, 3]))
     params = []
     for n in names:
         p = gen_param(rng, n, maxchain, benign=rng.random() < 0.75)
@@ -601,6 +621,7 @@ def gen_shared(rng, maxchain):
             need = sp['default'] is None
             if rng.random() < (0.9 if need else 0.4):
                 asg[sp['n']] = rng.choice([[1, rng.choice([0, 2, 3, 8]), 0], [3, rng.choice([0, 2, 8]), 0], gen_val(rng)])
+        maybe_equalise(rng, asg)
         j = rng.randint(0, max_prefix(sig, asg))
         rest = [n for n in asg if n not in [sp['n'] for sp in sig['params']][:j]]
         rng.shuffle(rest)
